@@ -38,6 +38,11 @@ type stCase struct {
 	tkNil   bool      // NewFrameStream (nil tracker); otherwise NewFrameStreamWithTracker(double)
 	tk      []tkEntry // answers of the double; unlisted = unknown (not closed)
 	pre     int       // the receiving stream is created only after the first `pre` events are on the wire
+	hasRv   bool      // reverse phase: B's events, A's read sizes
+	rv      []stEvent
+	rr      []int
+	hasCut  bool // the connection is lost after cutAt bytes of the wire
+	cutAt   int
 	me      []byte
 	evs     []stEvent
 	ch      []int
@@ -67,19 +72,51 @@ func (c stCase) String() string {
 		fmt.Fprintf(&sb, " pre %d", c.pre)
 	}
 	fmt.Fprintf(&sb, " me %s ev %d", vc.Hex(c.me), len(c.evs))
-	for _, e := range c.evs {
+	evStr(&sb, c.evs)
+	sb.WriteString(" " + sizesStr("ch", c.ch))
+	sb.WriteString(" " + sizesStr("rd", c.rd))
+	if c.hasCut && !c.hasRv {
+		fmt.Fprintf(&sb, " cut %d", c.cutAt)
+	}
+	if c.hasRv {
+		fmt.Fprintf(&sb, " rv %d", len(c.rv))
+		evStr(&sb, c.rv)
+		sb.WriteString(" " + sizesStr("rr", c.rr))
+	}
+	return sb.String()
+}
+
+func evStr(sb *strings.Builder, evs []stEvent) {
+	for _, e := range evs {
 		switch e.kind {
 		case "w":
-			fmt.Fprintf(&sb, " w %d %d", e.n, e.seed)
+			fmt.Fprintf(sb, " w %d %d", e.n, e.seed)
 		case "cw", "cl":
 			sb.WriteString(" " + e.kind)
 		case "f":
-			fmt.Fprintf(&sb, " f %s %d %d %d", vc.Hex(e.tid), e.ty, e.n, e.seed)
+			fmt.Fprintf(sb, " f %s %d %d %d", vc.Hex(e.tid), e.ty, e.n, e.seed)
 		}
 	}
-	sb.WriteString(" " + sizesStr("ch", c.ch))
-	sb.WriteString(" " + sizesStr("rd", c.rd))
-	return sb.String()
+}
+
+func parseEvs(toks []string, i, n int) ([]stEvent, int) {
+	var evs []stEvent
+	for j := 0; j < n; j++ {
+		switch toks[i] {
+		case "w":
+			evs = append(evs, stEvent{kind: "w", n: atoi(toks[i+1]), seed: atoi(toks[i+2])})
+			i += 3
+		case "cw", "cl":
+			evs = append(evs, stEvent{kind: toks[i]})
+			i++
+		case "f":
+			evs = append(evs, stEvent{kind: "f", tid: vc.UnHex(toks[i+1]), ty: atoi(toks[i+2]), n: atoi(toks[i+3]), seed: atoi(toks[i+4])})
+			i += 5
+		default:
+			panic("st: unknown event " + toks[i])
+		}
+	}
+	return evs, i
 }
 
 func parseSt(toks []string) stCase {
@@ -117,23 +154,20 @@ func parseSt(toks []string) stCase {
 	c.me = vc.UnHex(toks[i+1])
 	n := atoi(toks[i+3])
 	i += 4
-	for j := 0; j < n; j++ {
-		switch toks[i] {
-		case "w":
-			c.evs = append(c.evs, stEvent{kind: "w", n: atoi(toks[i+1]), seed: atoi(toks[i+2])})
-			i += 3
-		case "cw", "cl":
-			c.evs = append(c.evs, stEvent{kind: toks[i]})
-			i++
-		case "f":
-			c.evs = append(c.evs, stEvent{kind: "f", tid: vc.UnHex(toks[i+1]), ty: atoi(toks[i+2]), n: atoi(toks[i+3]), seed: atoi(toks[i+4])})
-			i += 5
-		default:
-			panic("st: unknown event " + toks[i])
+	c.evs, i = parseEvs(toks, i, n)
+	c.ch, i = parseSizes("ch", toks, i)
+	c.rd, i = parseSizes("rd", toks, i)
+	if i < len(toks) && toks[i] == "cut" {
+		c.hasCut, c.cutAt = true, atoi(toks[i+1])
+	}
+	if i < len(toks) && toks[i] == "rv" {
+		c.hasRv = true
+		c.rv, i = parseEvs(toks, i+2, atoi(toks[i+1]))
+		c.rr, _ = parseSizes("rr", toks, i)
+		if c.tailErr || len(c.ch) > 0 {
+			panic("st: a reverse phase needs a direct connection (tail eof, no ch)")
 		}
 	}
-	c.ch, i = parseSizes("ch", toks, i)
-	c.rd, _ = parseSizes("rd", toks, i)
 	return c
 }
 
@@ -197,8 +231,41 @@ const errTailWait = 150 * time.Millisecond
 // proxy forwards from -> to in the given chunk sizes (best effort: a short pause after every
 // chunk lets the reader drain it), the remainder as it comes.  At EOF of `from` the close is
 // propagated unless the case wants the connection to stay open (tail = err).
-func proxy(from, to *net.TCPConn, sizes []int, propagateClose bool, done chan struct{}) {
+func proxy(from, to *net.TCPConn, sizes []int, propagateClose bool, limit int, done chan struct{}) {
 	defer close(done)
+	if limit >= 0 {
+		// the connection is lost after `limit` bytes: forward exactly those (in the given chunk sizes),
+		// end or stall the outbound side, keep draining the sender
+		left := limit
+		buf := make([]byte, 32*1024)
+		idx := 0
+		for left > 0 {
+			n := left
+			if idx < len(sizes) && sizes[idx] > 0 && sizes[idx] < n {
+				n = sizes[idx]
+			}
+			idx++
+			if n > len(buf) {
+				n = len(buf)
+			}
+			m, err := io.ReadFull(from, buf[:n])
+			if m > 0 {
+				if _, werr := to.Write(buf[:m]); werr != nil {
+					break
+				}
+				left -= m
+				time.Sleep(40 * time.Microsecond)
+			}
+			if err != nil {
+				break
+			}
+		}
+		if propagateClose {
+			to.CloseWrite()
+		}
+		go io.Copy(io.Discard, from)
+		return
+	}
 	for _, s := range sizes {
 		if s <= 0 {
 			continue
@@ -239,13 +306,17 @@ func plainSetup(c *stCase, addCloser func(io.Closer)) stSetup {
 	addCloser(wT)
 	addCloser(pA)
 	su := stSetup{wT: wT, rT: pA, fwdDone: make(chan struct{})}
-	su.useProxy = c.tailErr || len(c.ch) > 0
+	su.useProxy = c.tailErr || len(c.ch) > 0 || c.hasCut
 	if su.useProxy {
 		pB, r2 := tcpPair()
 		addCloser(pB)
 		addCloser(r2)
 		su.rT = r2
-		go proxy(pA, pB, c.ch, !c.tailErr, su.fwdDone)
+		limit := -1
+		if c.hasCut {
+			limit = c.cutAt
+		}
+		go proxy(pA, pB, c.ch, !c.tailErr, limit, su.fwdDone)
 	}
 	return su
 }
@@ -324,7 +395,11 @@ func execStWith(toks []string, setup func(*stCase, func(io.Closer)) stSetup) str
 				}
 				switch e.kind {
 				case "w":
-					n, err := W.Write(genBytes(e.n, e.seed))
+					payload := genBytes(e.n, e.seed)
+					n, err := W.Write(payload)
+					for i := range payload { // the caller reuses its buffer as soon as Write returns
+						payload[i] ^= 0xA5
+					}
 					switch {
 					case err == nil:
 						wres = append(wres, "ok:"+strconv.Itoa(n))
@@ -364,9 +439,11 @@ func execStWith(toks []string, setup func(*stCase, func(io.Closer)) stSetup) str
 		}
 		// read results are written relative to the case's reference stream (Driver/C10.lean refStream):
 		// "x:<n>" = the next n bytes of the reference at the cursor, anything else literally
+		// Every buffer handed to Read is HELD until all reads are done and only then looked at (a stream
+		// that kept a reference to a caller's buffer, or handed out memory it reuses, would show here).
 		ref := refStream(c)
-		cur := 0
 		var rres []string
+		var held [][]byte
 		for _, p := range c.rd {
 			buf := make([]byte, p)
 			if c.tailErr {
@@ -378,14 +455,11 @@ func execStWith(toks []string, setup func(*stCase, func(io.Closer)) stSetup) str
 			}
 			n, err := R.Read(buf)
 			if err == nil {
-				if n > 0 && cur+n <= len(ref) && bytes.Equal(ref[cur:cur+n], buf[:n]) {
-					rres = append(rres, "x:"+strconv.Itoa(n))
-				} else {
-					rres = append(rres, "d:"+vc.Hex(buf[:n]))
-				}
-				cur += n
+				rres = append(rres, "")
+				held = append(held, buf[:n:n])
 				continue
 			}
+			held = append(held, nil)
 			if n != 0 {
 				rres = append(rres, fmt.Sprintf("data-and-error:%d", n))
 				break
@@ -396,6 +470,19 @@ func execStWith(toks []string, setup func(*stCase, func(io.Closer)) stSetup) str
 			}
 			rres = append(rres, "err:"+kindOf(err))
 			break
+		}
+		cur := 0
+		for i, b := range held {
+			if rres[i] != "" {
+				continue
+			}
+			n := len(b)
+			if n > 0 && cur+n <= len(ref) && bytes.Equal(ref[cur:cur+n], b) {
+				rres[i] = "x:" + strconv.Itoa(n)
+			} else {
+				rres[i] = "d:" + vc.Hex(b)
+			}
+			cur += n
 		}
 		// unblock a sender stuck on a full socket buffer (reader stopped early), then collect
 		select {
@@ -426,6 +513,78 @@ func execStWith(toks []string, setup func(*stCase, func(io.Closer)) stSetup) str
 			sb.WriteString(" " + r)
 		}
 		fmt.Fprintf(&sb, " rb %d wb %d", b2i(R.IsBroken()), b2i(W.IsBroken()))
+		if c.hasRv {
+			// reverse phase on the SAME two stream objects: B (=R) writes, A (=W) reads
+			var bw []string
+			bdone := make(chan struct{})
+			go func() {
+				defer close(bdone)
+				defer func() { recover() }()
+				for _, e := range c.rv {
+					switch e.kind {
+					case "w":
+						n, err := R.Write(genBytes(e.n, e.seed))
+						switch {
+						case err == nil:
+							bw = append(bw, "ok:"+strconv.Itoa(n))
+						case err == io.ErrClosedPipe && n == 0:
+							bw = append(bw, "closed")
+						default:
+							bw = append(bw, "err:"+strconv.Itoa(n))
+						}
+					case "cw":
+						R.CloseWrite()
+					case "cl":
+						R.Close()
+					case "f":
+						fid, _ := crossnode.TunnelIDFromString(string(e.tid))
+						crossnode.WriteFrame(rT, fid, byte(e.ty), genBytes(e.n, e.seed))
+					}
+				}
+				rT.CloseWrite()
+			}()
+			ref2 := refStream(stCase{me: c.me, evs: c.rv})
+			cur2 := 0
+			var ar []string
+			for _, p := range c.rr {
+				buf := make([]byte, p)
+				n, err := W.Read(buf)
+				if err == nil {
+					if n > 0 && cur2+n <= len(ref2) && bytes.Equal(ref2[cur2:cur2+n], buf[:n]) {
+						ar = append(ar, "x:"+strconv.Itoa(n))
+					} else {
+						ar = append(ar, "d:"+vc.Hex(buf[:n]))
+					}
+					cur2 += n
+					continue
+				}
+				if n != 0 {
+					ar = append(ar, fmt.Sprintf("data-and-error:%d", n))
+					break
+				}
+				if err == io.EOF {
+					ar = append(ar, "eof")
+					continue
+				}
+				ar = append(ar, "err:"+kindOf(err))
+				break
+			}
+			select {
+			case <-bdone:
+			case <-time.After(50 * time.Millisecond):
+				go io.Copy(io.Discard, wT)
+				<-bdone
+			}
+			fmt.Fprintf(&sb, " rv wr %d", len(bw))
+			for _, w := range bw {
+				sb.WriteString(" " + w)
+			}
+			fmt.Fprintf(&sb, " rd %d", len(ar))
+			for _, r := range ar {
+				sb.WriteString(" " + r)
+			}
+			fmt.Fprintf(&sb, " rb %d wb %d", b2i(W.IsBroken()), b2i(R.IsBroken()))
+		}
 		resCh <- su.prefix + sb.String()
 	}()
 	select {
@@ -471,6 +630,15 @@ func mkReads(r *vc.Rand, c *stCase, pattern []int, extra int) {
 				}
 			}
 		}
+	}
+	owed := 0
+	for _, f := range frames {
+		owed += f
+	}
+	if owed > 5000 && pattern[0] < 50 {
+		// many tiny reads of a large frame make the model walk its buffer again for every read:
+		// keep the tiny sizes, interleaved with a mid-sized one
+		pattern = append([]int{1000 + r.Intn(3000)}, pattern...)
 	}
 	var rd []int
 	k := 0
@@ -553,8 +721,41 @@ func withTracker(r *vc.Rand, c *stCase) {
 	}
 }
 
+// withReverse adds a reverse phase (B answers on the stream it has read from, A reads on the one it
+// has written to) to a case that runs on a direct connection.
+func withReverse(r *vc.Rand, c *stCase) {
+	if c.hasRv || c.tailErr || len(c.ch) > 0 || c.hasCut {
+		return
+	}
+	c.hasRv = true
+	for j := 0; j < r.Intn(4); j++ {
+		switch r.Intn(6) {
+		case 0:
+			c.rv = append(c.rv, stEvent{kind: "f", tid: foreignFor(r, c.me), ty: vc.Pick(r, []int{1, 3, 9}), n: r.Intn(30), seed: r.Intn(256)})
+		case 1:
+			c.rv = append(c.rv, stEvent{kind: "f", tid: c.me, ty: vc.Pick(r, unknownTypes), n: r.Intn(30), seed: r.Intn(256)})
+		default:
+			c.rv = append(c.rv, stEvent{kind: "w", n: vc.Pick(r, []int{0, 1, 5, 900, 1450, 70000}), seed: r.Intn(256)})
+		}
+	}
+	if r.Intn(5) > 0 {
+		c.rv = append(c.rv, stEvent{kind: vc.Pick(r, []string{"cw", "cl"})})
+		if r.Intn(3) == 0 {
+			c.rv = append(c.rv, stEvent{kind: "w", n: 3, seed: 1}, stEvent{kind: vc.Pick(r, []string{"cw", "cl"})})
+		}
+	}
+	tmp := stCase{me: c.me, evs: c.rv}
+	mkReads(r, &tmp, vc.Pick(r, [][]int{{maxFrame}, {1 + r.Intn(9)}, {1 + r.Intn(3000), maxFrame}}), 3)
+	c.rr = tmp.rd
+}
+
 func stLine(r *vc.Rand, c stCase, kind string, key string) caseLine {
 	withTracker(r, &c)
+	if kind == "small-scope" || kind == "random" || kind == "duplex" {
+		if kind == "duplex" || r.Intn(3) == 0 {
+			withReverse(r, &c)
+		}
+	}
 	var ek strings.Builder
 	for _, e := range c.evs {
 		fmt.Fprintf(&ek, "%s%x/%d/%d;", e.kind, e.tid, e.ty, e.n)
@@ -563,7 +764,7 @@ func stLine(r *vc.Rand, c stCase, kind string, key string) caseLine {
 	if len(rdk) > 80 {
 		rdk = rdk[:80]
 	}
-	dk := fmt.Sprintf("%x|%s|%v|%v|%s|%v|%v%v%d", c.me, ek.String(), c.tailErr, c.rw, rdk, c.ch, c.tkNil, c.tk, c.pre)
+	dk := fmt.Sprintf("%x|%s|%v|%v|%s|%v|%v%v%d", c.me, ek.String(), c.tailErr, c.rw, rdk, c.ch, c.tkNil, c.tk, c.pre) + fmt.Sprint(c.hasRv, len(c.rv), len(c.rr), c.hasCut, c.cutAt)
 	if len(c.evs) < 2 {
 		dk = ""
 	}
@@ -612,7 +813,9 @@ func genSt(r *vc.Rand, thorough bool) []caseLine {
 		func() stEvent { return stEvent{kind: "cl"} },
 		func() stEvent { return stEvent{kind: "f", tid: foreignFor(r, me), ty: 1, n: 2, seed: r.Intn(256)} },
 		func() stEvent { return stEvent{kind: "f", tid: foreignFor(r, me), ty: vc.Pick(r, []int{3, 9}), n: 0} },
-		func() stEvent { return stEvent{kind: "f", tid: me, ty: vc.Pick(r, unknownTypes), n: 2, seed: r.Intn(256)} },
+		func() stEvent {
+			return stEvent{kind: "f", tid: me, ty: vc.Pick(r, unknownTypes), n: 2, seed: r.Intn(256)}
+		},
 		func() stEvent { return stEvent{kind: "f", tid: me, ty: 1, n: 0} },
 	}
 	var seqs [][]int
@@ -710,6 +913,72 @@ func genSt(r *vc.Rand, thorough bool) []caseLine {
 		c.evs = []stEvent{{kind: "w", n: k*maxFrame + n, seed: r.Intn(256)}, {kind: "w", n: 2, seed: 5}, {kind: []string{"cw", "cl"}[i%2]}}
 		mkReads(r, &c, []int{maxFrame}, 3)
 		out = append(out, stLine(r, c, "sweep-last-chunk", ""))
+	}
+	// (2c) request / response on the same stream objects: every way the request direction ends
+	//      (half-close, close, nothing, peer-looking terminator frames) x B half-closed before or not
+	for i := 0; i < 48; i++ {
+		c := stCase{me: meIDs[i%len(meIDs)], rw: i%4 == 3}
+		c.evs = []stEvent{{kind: "w", n: vc.Pick(r, []int{1, 100, 1450, 66000}), seed: r.Intn(256)}}
+		switch i % 6 {
+		case 0:
+			c.evs = append(c.evs, stEvent{kind: "cw"})
+		case 1:
+			c.evs = append(c.evs, stEvent{kind: "cl"})
+		case 2:
+			c.evs = append(c.evs, stEvent{kind: "cw"}, stEvent{kind: "cl"})
+		case 3:
+			c.evs = append(c.evs, stEvent{kind: "f", tid: c.me, ty: 9, n: 0}, stEvent{kind: "w", n: 2, seed: 1})
+		case 4:
+			c.evs = append(c.evs, stEvent{kind: "f", tid: foreignFor(r, c.me), ty: 9, n: 0})
+		}
+		mkReads(r, &c, vc.Pick(r, [][]int{{maxFrame}, {7}, {700}}), 3)
+		out = append(out, stLine(r, c, "duplex", ""))
+	}
+	// (2d) the connection is lost at EVERY byte offset of short wires (inside headers, inside payloads,
+	//      between frames), ending (eof) or stalling (err); and at random offsets of longer ones
+	for i := 0; i < 6; i++ {
+		c := stCase{me: meIDs[i%len(meIDs)], tailErr: i%3 == 2}
+		c.evs = []stEvent{
+			{kind: "w", n: 3 + i, seed: r.Intn(256)},
+			{kind: "f", tid: foreignFor(r, c.me), ty: 1, n: 2, seed: 7},
+			{kind: "w", n: 2, seed: r.Intn(256)},
+			{kind: vc.Pick(r, []string{"cw", "cl"})},
+		}
+		wire := 4*21 + 3 + i + 2 + 2
+		step := 1
+		if c.tailErr { // every stalled case waits for the time-out
+			step = 9
+		}
+		for k := 0; k <= wire+1; k += step {
+			cc := c
+			cc.hasCut, cc.cutAt = true, k
+			mkReads(r, &cc, [][]int{{1}, {64}, {2, 0, 5}}[k%3], 3)
+			out = append(out, stLine(r, cc, "cut", ""))
+		}
+	}
+	cuts := 40
+	if thorough {
+		cuts = 600
+	}
+	for i := 0; i < cuts; i++ {
+		c := stCase{me: vc.Pick(r, meIDs), tailErr: r.Intn(10) == 0}
+		total := 0
+		for j := 0; j < 1+r.Intn(4); j++ {
+			n := vc.Pick(r, []int{0, 1, 100, 1450, 5000, 66000})
+			c.evs = append(c.evs, stEvent{kind: "w", n: n, seed: r.Intn(256)})
+			total += n + 21*(1+n/maxFrame)
+			if r.Intn(3) == 0 {
+				c.evs = append(c.evs, stEvent{kind: "f", tid: foreignFor(r, c.me), ty: vc.Pick(r, []int{1, 3, 9}), n: r.Intn(50), seed: 1})
+				total += 21 + 50
+			}
+		}
+		c.evs = append(c.evs, stEvent{kind: vc.Pick(r, []string{"cw", "cl"})})
+		c.hasCut, c.cutAt = true, r.Intn(total+30)
+		mkReads(r, &c, vc.Pick(r, [][]int{{maxFrame}, {1 + r.Intn(2000), maxFrame}}), 3)
+		if r.Intn(2) == 0 {
+			c.ch = randSizes(r, c.cutAt+1, 10)
+		}
+		out = append(out, stLine(r, c, "cut", ""))
 	}
 	// (3) random scripts
 	rounds := 450
